@@ -5,13 +5,23 @@ PROPS = ["Props/C03.v", "Props/C01.v", "Props/C06.v"]
 
 
 def with_scenarios(ctx):
-    """sub-slot and team projects with a second and third scenario (no scenario-specific values): every scenario has a
+    """sub-slot and team projects with a second and third scenario (efforts of their own for some scenarios, inherited by the scenarios nested in them): every scenario has a
     ledger of its own and the oracle is applied to each"""
     import gens
     out = []
     for ap in gens.family(ctx, "subslot", ctx.n(50, 400)) + gens.family(ctx, "sdteam", ctx.n(20, 150)):
-        ap["scenario_lines"] = [ctx.rng.choice(['scenario plan "plan" { scenario s1 "s1" }',
-                                                'scenario plan "plan" { scenario s1 "s1" scenario s2 "s2" }'])]
+        line, par = ctx.rng.choice([('scenario plan "plan" { scenario s1 "s1" }', {"plan": None, "s1": "plan"}),
+                                    ('scenario plan "plan" { scenario s1 "s1" scenario s2 "s2" }', {"plan": None, "s1": "plan", "s2": "plan"}),
+                                    ('scenario plan "plan" { scenario s1 "s1" { scenario s2 "s2" { scenario s3 "s3" } } }',
+                                     {"plan": None, "s1": "plan", "s2": "s1", "s3": "s2"})])
+        ap["scenario_lines"] = [line]
+        ap["scen_parent"] = par
+        import projects
+        for _, n in projects.walk(ap["tasks"]):
+            # efforts of their own for inner and enclosing scenarios, written in any order (the others inherit them)
+            if "kids" not in n and n.get("effort") and ctx.rng.random() < 0.4:
+                for s_ in ctx.rng.sample([x for x in par if x != "plan"], ctx.rng.randint(1, min(2, len(par) - 1))):
+                    n.setdefault("sc_attrs", []).append((s_, "effort", n["effort"] + ctx.rng.choice([30, 60, 90, 120])))
         ap["_family"] = "scen" + ap["_family"]
         out.append(ap)
     return out
